@@ -561,6 +561,30 @@ impl<'s, I: Kind<'s>, R: Er<'s, I>> Bld<'s, I, R> {
                 }
             };
         }
+        if r.ctxb != 0 {
+            let mode = r.ctxb;
+            return match mode {
+                1 => {
+                    let rep = item.repeated().configure(move |c, ctx: &Val| c.exactly(ctx_num(ctx)));
+                    self.sink(rep, &r.sink)
+                }
+                2 => {
+                    let rep = item.repeated().configure(move |c, ctx: &Val| c.at_least(lo).at_most(ctx_num(ctx)));
+                    self.sink(rep, &r.sink)
+                }
+                _ => {
+                    let rep = item.repeated().try_configure(move |c, ctx: &Val, span| {
+                        let n = ctx_num(ctx);
+                        if n % 2 == 1 {
+                            Err(R::custom(span, format!("K{}", n)))
+                        } else {
+                            Ok(c.exactly(n))
+                        }
+                    });
+                    self.sink(rep, &r.sink)
+                }
+            };
+        }
         match &r.sep {
             None => {
                 if r.cfg {
